@@ -58,6 +58,14 @@ class BoundMethod:
 
 
 @dataclass(frozen=True)
+class PartialMethod(BoundMethod):
+    """`functools.partial(obj.method, a, k=b)`: the method, with the arguments already given."""
+
+    args: tuple = ()  # type: ignore[type-arg]
+    kwargs: tuple = ()  # type: ignore[type-arg]
+
+
+@dataclass(frozen=True)
 class EnumMember:
     cls: ClassInfo
     name: str
@@ -657,6 +665,11 @@ class Folder:
             if name == "re.compile":
                 flags = args[1] if len(args) > 1 else kwargs.get("flags", 0)
                 return RegexConst(args[0], int(flags))
+            if name in ("functools.partial", "partial") and args and isinstance(args[0], BoundMethod) and not isinstance(args[0], PartialMethod):
+                def _key(v: Any) -> Any:
+                    return v if isinstance(v, (str, int, float, bool, type(None), ClassRef, ExtRef, EnumMember)) else repr(v)
+
+                return PartialMethod(args[0].cls, args[0].name, tuple(_key(a) for a in args[1:]), tuple(sorted((k, _key(v)) for k, v in kwargs.items())))
             raise NotConst(f"call of external {name}")
         if isinstance(func, ClassRef):
             return Instance(func.cls, {})
